@@ -150,6 +150,89 @@ func runEncoderHistoryT[T any](c *driverCtx, prop, key, codec string, block int,
 	return len(w.calls), w.out
 }
 
+// interleavedEncoders: two encoders of the same codec alive in one process; the second one encodes and flushes a
+// whole block from inside the first one's io.Writer, between two writes of the first one's block (what happens with
+// a writer that drives another pipeline, and, by chance, with two goroutines). Each encoder's output is judged as
+// its own history: independent encoders do not share state.
+type hookWriter struct {
+	w  *recWriter
+	n  int
+	at int
+	f  func()
+}
+
+func (h *hookWriter) Write(p []byte) (int, error) {
+	h.n++
+	if h.n == h.at && h.f != nil {
+		f := h.f
+		h.f = nil
+		f()
+	}
+	return h.w.Write(p)
+}
+
+func interleavedEncoders(c *driverCtx, prop, codec string, k int, bigB bool) {
+	const block = 1 << 20
+	wa, wb := &recWriter{}, &recWriter{}
+	ha := &hookWriter{w: wa}
+	var evA, evB []map[string]any
+	beforeA, beforeB := 0, 0
+	record := func(evs *[]map[string]any, w *recWriter, before *int, op string, extra map[string]any, f func() error) {
+		var err error
+		p := catch(func() { err = f() })
+		raws, oks := rawsOfDelta(w.out, *before, codec)
+		ev := map[string]any{"op": op, "codec": codec, "codecBytes": byteList([]byte(codec)), "block": block,
+			"delta": byteList(w.out[*before:]), "raws": raws, "rawok": oks, "err": errClass(err), "panic": p, "faulted": false}
+		for kk, v := range extra {
+			ev[kk] = v
+		}
+		*evs = append(*evs, ev)
+		*before = len(w.out)
+	}
+	newExtra := map[string]any{"ref": []int{}, "hasref": false, "failAt": 0, "accept": 0}
+	var a, b *avro.Encoder[EncRec]
+	record(&evA, wa, &beforeA, "enc_new", newExtra, func() (err error) {
+		a, err = avro.NewEncoderFor[EncRec](ha, avro.Compression(codec), block)
+		return
+	})
+	record(&evB, wb, &beforeB, "enc_new", newExtra, func() (err error) {
+		b, err = avro.NewEncoderFor[EncRec](wb, avro.Compression(codec), block)
+		return
+	})
+	if a == nil || b == nil {
+		return
+	}
+	enc := func(evs *[]map[string]any, w *recWriter, before *int, e *avro.Encoder[EncRec], n int) {
+		p := payload(c.rng, n)
+		record(evs, w, before, "enc_encode", map[string]any{"p": byteList(p), "kind": "bytes"}, func() error { return e.Encode(&EncRec{P: p}) })
+	}
+	flush := func(evs *[]map[string]any, w *recWriter, before *int, e *avro.Encoder[EncRec]) {
+		record(evs, w, before, "enc_flush", nil, func() error { return e.Flush() })
+	}
+	na, nb := 300, 120
+	if bigB {
+		na, nb = 120, 300
+	}
+	enc(&evA, wa, &beforeA, a, na)
+	enc(&evA, wa, &beforeA, a, na/2)
+	// B's whole block is produced while A is in the middle of writing its block (before A's k-th write of the block)
+	ha.at, ha.f = ha.n+k, func() {
+		enc(&evB, wb, &beforeB, b, nb)
+		flush(&evB, wb, &beforeB, b)
+	}
+	flush(&evA, wa, &beforeA, a)
+	enc(&evB, wb, &beforeB, b, 10)
+	flush(&evB, wb, &beforeB, b)
+	enc(&evA, wa, &beforeA, a, 20)
+	flush(&evA, wa, &beforeA, a)
+	for i, evs := range [][]map[string]any{evA, evB} {
+		c.rec.NewCase()
+		for _, ev := range evs {
+			c.rec.Emit(fmt.Sprintf("%s|interleaved|%s|k%d|%s", prop, codec, k, []string{"outer", "inner"}[i]), ev)
+		}
+	}
+}
+
 func catch(f func()) (panicked string) {
 	defer func() {
 		if r := recover(); r != nil {
@@ -373,6 +456,14 @@ func driveEncoder(c *driverCtx, prop string) error {
 			}
 		}
 		c.rec.Realised(fmt.Sprintf("writes>=%d", min(writes/4*4, 12)))
+	}
+	// two encoders interleaved (C09: each one's output is still an exact sequence of its own blocks)
+	if prop == "C09" {
+		for _, codec := range codecs3 {
+			for k := 1; k <= 4; k++ {
+				interleavedEncoders(c, prop, codec, k, k%2 == 0)
+			}
+		}
 	}
 	// FileWriter directly: every payload length up to the limit (null codec; every 7th length for the others), with
 	// one- and two-byte record counts: boundaries of any size-dependent path show up as a mis-framed block
